@@ -646,7 +646,7 @@ def apply_contract(I, ct, f, args, kwargs, fr, node):
         bind_fresh(I, ct, "normal", fresh_objs, env2, post, pre)
         glive = {}
         for cl in ct.ensures:
-            if cl.tag == "canary":
+            if cl.tag == "canary" or (ct.qualname, cl.id) in getattr(I, "drop_clauses", ()):
                 continue
             if cl.guard is not None:
                 if cl.guard not in glive:
@@ -682,7 +682,7 @@ def apply_contract(I, ct, f, args, kwargs, fr, node):
     bind_fresh(I, ct, out, fresh_objs, env2, c.heap, pre)
     glive = {}
     for cl in ct.raises[out]:
-        if cl.tag == "canary":
+        if cl.tag == "canary" or (ct.qualname, cl.id) in getattr(I, "drop_clauses", ()):
             continue
         if cl.guard is not None:
             if cl.guard not in glive:
